@@ -70,6 +70,56 @@ def down {σ : Type} (o : Ops σ) : Nat → σ → Int → Int → Option (σ ×
         | none => none
         | some s3 => down o f s3 j n
 
+/-! ### `down` with Go's 64-bit `int`
+
+`down` above computes with ideal integers (the guard `j1 < 0` is then dead). `down64` is the same
+loop with the index arithmetic of a 64-bit `int`: `2*i + 1` wraps around to a negative number for
+`i ≥ 2^62` — reachable only with more than `2^62` elements, i.e. a zero-size element type
+(`Slice[struct{}]`) — and the guard `j1 < 0` ends the loop there. `Proof/C04Overflow.lean`:
+`down64 = down` for all sizes below `2^62`; with the guard the wrapped index ends the loop; without
+it (`down64NoGuard`, finding C04-G) the comparator callback is called with a negative index. -/
+
+/-- two's-complement wrap of a 64-bit `int` -/
+def wrap64 (x : Int) : Int :=
+  (x + 9223372036854775808) % 18446744073709551616 - 9223372036854775808
+
+def down64 {σ : Type} (o : Ops σ) : Nat → σ → Int → Int → Option (σ × Int)
+  | 0, _, _, _ => none
+  | f + 1, s, i, n =>
+    let j1 := wrap64 (2 * i + 1)
+    if j1 ≥ n ∨ j1 < 0 then some (s, i) else
+    let j2 := j1 + 1      -- `j1 < n ≤ MaxInt`: no wrap
+    match (if j2 < n then o.less s j2 j1 else some (s, false)) with
+    | none => none
+    | some (s1, b) =>
+      let j := if b then j2 else j1
+      match o.less s1 j i with
+      | none => none
+      | some (s2, false) => some (s2, i)
+      | some (s2, true) =>
+        match o.swap s2 i j with
+        | none => none
+        | some s3 => down64 o f s3 j n
+
+/-- the loop WITHOUT the overflow guard (`for j := 2*i + 1; j < n; …`) -/
+def down64NoGuard {σ : Type} (o : Ops σ) : Nat → σ → Int → Int → Option (σ × Int)
+  | 0, _, _, _ => none
+  | f + 1, s, i, n =>
+    let j1 := wrap64 (2 * i + 1)
+    if j1 ≥ n then some (s, i) else
+    let j2 := j1 + 1
+    match (if j2 < n then o.less s j2 j1 else some (s, false)) with
+    | none => none
+    | some (s1, b) =>
+      let j := if b then j2 else j1
+      match o.less s1 j i with
+      | none => none
+      | some (s2, false) => some (s2, i)
+      | some (s2, true) =>
+        match o.swap s2 i j with
+        | none => none
+        | some s3 => down64NoGuard o f s3 j n
+
 /-- Fuel for a `down` over a prefix of length `n`, and for an `up` from index `j`. -/
 def fuelOf (n : Int) : Nat := n.toNat + 1
 
